@@ -48,7 +48,12 @@ class State:
             ns = cache.get(txt)
             if ns is None:
                 try:
-                    ns = names_in(ast.parse(txt, mode="eval")) if not txt.startswith("EV:") else set()
+                    if txt.startswith("ITER:"):
+                        ns = names_in(ast.parse(txt.split(":", 2)[1], mode="eval"))
+                    elif txt.startswith(("EV:", "MATCH:")):
+                        ns = set()
+                    else:
+                        ns = names_in(ast.parse(txt, mode="eval"))
                 except SyntaxError:
                     ns = set()
                 cache[txt] = ns
@@ -97,7 +102,10 @@ def cond_facts(expr: ast.expr, truth: bool) -> set[Fact]:
         out = sets[0]
         for s in sets[1:]:
             out = out & s
-        return set(out)
+        out = set(out)
+        # keep the disjunction itself as a composite fact: role-level rules can intersect the alternatives' roles
+        out.add((truth, unparse(expr)))
+        return out
     if isinstance(expr, ast.NamedExpr):
         out = cond_facts(expr.value, truth)
         out.add((truth, expr.target.id))
@@ -402,6 +410,8 @@ class FlowAnalysis:
                 body_in = h
             if target is not None and body_in is not None:
                 body_in = self._assign_kill([target], body_in)
+                # iteration fact: inside the body, `target` is an element of `iter`
+                body_in = body_in.add({(True, f"ITER:{unparse(target)}:{unparse(s.iter)}")})
             end = self._block(s.body, body_in)
             self._loop_stack.pop()
             new_head = join([st, end] + frame["continue"])
@@ -476,7 +486,7 @@ def fact_exprs(facts: frozenset) -> list[tuple[bool, ast.expr]]:
     """Parse fact texts back to expressions (events / MATCH facts skipped)."""
     out = []
     for pol, txt in facts:
-        if txt.startswith(("EV:", "MATCH:")):
+        if txt.startswith(("EV:", "MATCH:", "ITER:")):
             continue
         try:
             out.append((pol, ast.parse(txt, mode="eval").body))
